@@ -30,6 +30,9 @@ type Sched struct {
 	// Interrupted set (the harness stops or restarts the world between two steps of the threads).
 	Interrupt   func() bool
 	Interrupted bool
+	// OnStep, if set, is called by Drain between any two steps (all threads parked or blocked): state invariants that
+	// must hold at every instant are evaluated here.
+	OnStep func()
 	// Virtuals are harness-side actions that take part in scheduling like threads (e.g. delivering a queued event).
 	Virtuals []*Virtual
 	off      bool
@@ -164,6 +167,9 @@ func (s *Sched) Drain() int {
 	grants := 0
 	for {
 		synctest.Wait()
+		if s.OnStep != nil {
+			s.OnStep() // every thread is parked or blocked: a consistent instant between two steps
+		}
 		anyV := s.anyVirtual() // evaluated without holding s.mu (Enabled may ask the scheduler)
 		s.mu.Lock()
 		if len(s.parked) == 0 && !anyV {
